@@ -58,3 +58,93 @@ func specFirstImm(o *OperandPegImpl) int {
 //@ ensures[imm16] (result0 == CodeIMM16) == (!(-128 <= value && value <= 127) && -32768 <= value && value <= 32767)
 //@ ensures[imm32] (result0 == CodeIMM32) == (!(-32768 <= value && value <= 32767) && -2147483648 <= value && value <= 2147483647)
 //@ ensures[dom]   result0 == CodeIMM8 || result0 == CodeIMM16 || result0 == CodeIMM32 || result0 == CodeIMM64
+
+// ---------------------------------------------------------------------------
+// Size of the addressing bytes of a memory operand (Intel SDM Vol. 2, 2.1.5, tables 2-1..2-3),
+// as a function of the operand itself. Both the pass-1 estimate (this package) and the emitter
+// (internal/codegen calculateModRM) are specified against these functions (C03).
+// ---------------------------------------------------------------------------
+
+func specIsAddr32(r string) bool {
+	return r == "EAX" || r == "ECX" || r == "EDX" || r == "EBX" || r == "ESP" || r == "EBP" || r == "ESI" || r == "EDI"
+}
+
+func specIsAddr16(r string) bool { return r == "BX" || r == "BP" || r == "SI" || r == "DI" }
+
+// SpecAddrSize: 32 or 16 by the registers used, the mode's size for an absolute address, 0 if the
+// registers cannot form an address.
+func SpecAddrSize(m *MemoryInfo, mode int) int {
+	bn, in := m.BaseReg == "", m.IndexReg == ""
+	switch {
+	case bn && in:
+		return mode
+	case (bn || specIsAddr32(m.BaseReg)) && (in || specIsAddr32(m.IndexReg) && m.IndexReg != "ESP"):
+		return 32
+	case (m.BaseReg == "BX" || m.BaseReg == "BP") && (in || m.IndexReg == "SI" || m.IndexReg == "DI") && (m.Scale == 0 || m.Scale == 1),
+		bn && (m.IndexReg == "SI" || m.IndexReg == "DI" || m.IndexReg == "BX" || m.IndexReg == "BP") && (m.Scale == 0 || m.Scale == 1),
+		(m.BaseReg == "SI" || m.BaseReg == "DI") && in:
+		return 16
+	}
+	return 0
+}
+
+// SpecDispBytes: number of displacement bytes of the shortest encoding of the operand.
+func SpecDispBytes(m *MemoryInfo, mode int) int {
+	asz := SpecAddrSize(m, mode)
+	full := 4
+	if asz == 16 {
+		full = 2
+	}
+	fits8 := -128 <= m.Displacement && m.Displacement <= 127
+	switch {
+	case m.BaseReg == "" && m.IndexReg == "":
+		return full // absolute
+	case asz == 32 && m.BaseReg == "":
+		return 4 // index without base: SIB with base=101, mod=00
+	case m.Displacement == 0 && asz == 32 && m.BaseReg != "EBP":
+		return 0
+	case m.Displacement == 0 && asz == 16 && !((m.BaseReg == "BP" && m.IndexReg == "") || (m.BaseReg == "" && m.IndexReg == "BP")):
+		return 0
+	case fits8:
+		return 1
+	}
+	return full
+}
+
+// SpecSibBytes: 1 if the encoding needs a SIB byte.
+func SpecSibBytes(m *MemoryInfo, mode int) int {
+	if SpecAddrSize(m, mode) == 32 && (m.IndexReg != "" || m.BaseReg == "ESP") {
+		return 1
+	}
+	return 0
+}
+
+// specFirstMem: the memory operand pass 1 looks at (at most three explicit operands, A6).
+func specFirstMem(o *OperandPegImpl) *MemoryInfo {
+	ps := o.parsedOperands
+	switch {
+	case len(ps) > 0 && ps[0] != nil && ps[0].Memory != nil:
+		return ps[0].Memory
+	case len(ps) > 1 && ps[1] != nil && ps[1].Memory != nil:
+		return ps[1].Memory
+	case len(ps) > 2 && ps[2] != nil && ps[2].Memory != nil:
+		return ps[2].Memory
+	}
+	return nil
+}
+
+//@ func (*OperandPegImpl).CalcOffsetByteSize
+//@ props C03 C13
+//@ requires o != nil
+//@ requires[A6] len(o.parsedOperands) <= 3
+//@ requires[A13] o.bitMode == 16 || o.bitMode == 32
+//@ ensures[none] specFirstMem(o) == nil ==> result0 == 0
+//@ ensures[disp] specFirstMem(o) != nil && SpecAddrSize(specFirstMem(o), int(o.bitMode)) != 0 ==> result0 == SpecDispBytes(specFirstMem(o), int(o.bitMode))
+
+//@ func (*OperandPegImpl).CalcSibByteSize
+//@ props C03 C13
+//@ requires o != nil
+//@ requires[A6] len(o.parsedOperands) <= 3
+//@ requires[A13] o.bitMode == 16 || o.bitMode == 32
+//@ ensures[none] specFirstMem(o) == nil ==> result0 == 0
+//@ ensures[sib] specFirstMem(o) != nil && SpecAddrSize(specFirstMem(o), int(o.bitMode)) != 0 ==> result0 == SpecSibBytes(specFirstMem(o), int(o.bitMode))
